@@ -759,10 +759,81 @@ def run_c20(ctx):
                       "srv-msg: 30 requests per connection; header lists over 9 pseudo and 20 regular fields (valid and invalid names, values, orders, duplications), perturbations of a valid skeleton, bodies of 0/3/5 octets, 5 kinds of trailers.")
 
 
+def run_c19(ctx):
+    """ownership half: the pool tracker (hooks_verif.go) is on for whole runs of the server and client families,
+    incl. bursts with real interleavings; its anomalies (two-owners, double-release) are violations. Data-race half:
+    the same bursts under the Go race detector, as a search aid (a report is a failing history)."""
+    import subprocess, tempfile
+    ctx.known_hits = collections.Counter()
+    covs = {}
+    fams = ["srv-burst", "srv-basic", "srv-err", "srv-goaway", "srv-soup", "cliflow", "cliresolve", "cligoaway", "clirace"]
+    hb = os.path.join(ctx.root, "bin", "h2harness")
+    for area in fams:
+        p = subprocess.run([hb, "gen", area, ctx.tier, str(ctx.seed)], stdout=subprocess.PIPE, stderr=subprocess.PIPE, text=True)
+        if p.returncode != 0:
+            continue
+        ops = ["pool.on"] + p.stdout.splitlines() + ["pool.report"]
+        o, i, m = ctx.gen_run_compare(ctx.pid, "pool-" + area, ctx.tier, ctx.seed, ctx.log, extra_ops=ops)
+        rep = i[-1]
+        mm = re.search(r"events=(\d+) anomalies=(\S*) ", rep + " ")
+        events = int(mm.group(1)) if mm else 0
+        anomalies = mm.group(2) if mm else "?"
+        if anomalies:
+            ctx.violations.append(dict(kind="pooled-object-ownership", detail=dict(family=area, anomalies=anomalies[:300]), ops=ops[:3000]))
+        npanic = sum(1 for a in i if a == "panic" or " panic-logged" in (" " + a.replace("|", " ")) .replace("handler-panic-logged", "") or "panicked=1" in a)
+        if npanic:
+            ctx.violations.append(dict(kind="panic-under-tracker-run", detail=dict(family=area, n=npanic), ops=ops[:3000]))
+        if area.startswith("srv") and area != "srv-burst":
+            cov, diffs = srv_compare(ctx, area, o[1:-1], i[1:-1], m[1:-1])
+        else:
+            cov = dict(evaluations=len(ops), distinct_nontrivial=len(set(ops)), disagreements=0,
+                       samples=[dict(op=ops[k][:200], impl=i[k][:200]) for k in range(1, min(len(ops), 400), 97)])
+        cov["pool_events"] = events
+        cov["pool_anomalies"] = anomalies
+        covs[area] = cov
+    # race detector (search aid)
+    race = dict(ran=False)
+    hdir = os.path.join(ctx.root, "harness")
+    rb = os.path.join(ctx.root, "bin", "h2harness-race")
+    env = dict(os.environ, GOFLAGS="-mod=mod", GOPROXY="off")
+    env.pop("GOSUMDB", None)
+    pb = subprocess.run(["go", "build", "-race", "-tags", "verif", "-o", rb, "."], cwd=hdir, env=env, stdout=subprocess.PIPE, stderr=subprocess.STDOUT, text=True)
+    if pb.returncode == 0:
+        race["ran"] = True
+        race["reports"] = 0
+        for area in (["srv-burst", "clirace", "cliflow"] if not ctx.thorough() else ["srv-burst", "srv-err", "srv-goaway", "clirace", "cliflow", "cliresolve", "cligoaway"]):
+            p = subprocess.run([hb, "gen", area, "quick", str(ctx.seed)], stdout=subprocess.PIPE, stderr=subprocess.PIPE, text=True)
+            if p.returncode != 0:
+                continue
+            pr = subprocess.run([rb, "run"], input=p.stdout, stdout=subprocess.PIPE, stderr=subprocess.PIPE, text=True,
+                                env=dict(os.environ, GORACE="halt_on_error=0"), timeout=3000)
+            n = pr.stderr.count("WARNING: DATA RACE")
+            race["reports"] += n
+            race.setdefault("families", {})[area] = dict(ops=p.stdout.count("\n"), reports=n)
+            if n:
+                first = pr.stderr[pr.stderr.index("WARNING: DATA RACE"):][:2500]
+                ctx.violations.append(dict(kind="data-race", detail=dict(family=area, seed=ctx.seed, report=first),
+                                           ops=["# h2harness gen %s quick %d | h2harness-race run   (bin/h2harness-race: go build -race -tags verif)" % (area, ctx.seed)]))
+    else:
+        race["build_error"] = pb.stdout[-500:]
+    out = merge_cov(covs)
+    out["race_detector"] = race
+    out["rule"] = ("pool tracker switched on for whole runs of 5 server families (one of them bursts: frames written without waiting, "
+                   "all parked handlers released at once, SETTINGS and WINDOW_UPDATE arriving meanwhile) and 4 client families (incl. forced "
+                   "Close/Write interleavings); every acquire/release of frames, frame headers, header fields, streams, request contexts and "
+                   "client contexts is an event. The race-detector build runs the concurrent families. distinct_nontrivial = distinct op lines.")
+    out["traces_validated_against_impl"] = sum(c.get("connections", 0) for c in covs.values())
+    return out
+
+
 def register(PROPS):
     base = ["serial stepping: one event at a time, outputs read at quiescence (counters from the verif hooks)",
             "fasthttp's header storage is the trusted abstraction responseView/handler view (DESIGN C01)",
             "the scripted peer's HPACK encoder/decoder (x/net Huffman and decoder) and frame writer"]
+    PROPS["C19"] = dict(module="H2.Props.C19", run=run_c19, assumptions=base + [
+        "PARTIAL: the data-race half of C19 cannot be decided by proof over these models (their actions contain no memory accesses); "
+        "the Go race detector over concurrent workloads is a search aid only",
+        "the pool tracker sees the acquire/release sites instrumented in the verif hook commits"])
     for pid, fn in (("C01", run_c01), ("C06", run_c06), ("C08", run_c08), ("C09", run_c09), ("C10", run_c10),
                     ("C13", run_c13), ("C14", run_c14), ("C17", run_c17), ("C18", run_c18), ("C20", run_c20)):
         PROPS[pid] = dict(module="H2.Props." + pid, run=fn, assumptions=base)
